@@ -168,10 +168,10 @@ def art_programs(rows, tier):
     return progs
 
 
-def mc_cache(ctx, name, comp, layers, hooks, depth, hows):
+def mc_cache(ctx, name, comp, layers, hooks, depth, hows, keys=("a",)):
     cfg = ctx.path(f"mc_{name}.cfg")
     lib.write_cfg(cfg, dict(MC_BASE, Family='"cache"', Comp=f'"{comp}"', Layers=f'"{layers}"', Hooks=f'"{hooks}"', D=depth,
-                            Hows=lib.tla_set(hows)), "MCInit", "MCNext", symmetry="Sym", constraints=["Constr"],
+                            Hows=lib.tla_set(hows), Keys=lib.tla_set(keys)), "MCInit", "MCNext", symmetry="Sym", constraints=["Constr"],
                   invariants=["SafeGet", "PutSafe", "GoneAfter", "CacheEmit"])
     out = ctx.path(f"prog_{name}.ndjson")
     r = lib.tlc(ctx, MODULE_MC, cfg, tagged_out={"PROGRAM": out}, timeout=1500)
@@ -323,10 +323,12 @@ def run(ctx):
         nrand, rlen = 150, 40
     else:
         plan = [("cac_mem", "cac_mem", "m", "ngdp", 5, allhows), ("cac_disk", "cac_disk", "d", "ngdp", 5, allhows),
-                ("ml_d", "ml", "d", "md5", 5, allhows), ("ml_md", "ml", "md", "md5", 5, allhows[:3]),
+                ("ml_d", "ml", "d", "md5", 6, allhows[:3]), ("ml_d_all", "ml", "d", "md5", 5, allhows),
+                ("ml_md", "ml", "md", "md5", 5, allhows[:3]),
                 ("ml_mm", "ml", "mm", "md5", 4, ["flip"]), ("ml_mmd", "ml", "mmd", "md5", 4, allhows[:2]),
+                ("ml_md_2keys", "ml", "md", "md5", 4, allhows[:2], ("a", "b")),
                 ("ml_d_ngdp", "ml", "d", "ngdp", 4, allhows), ("ml_md_nohooks", "ml", "md", "none", 4, allhows[:2])]
-        nrand, rlen = 1500, 60
+        nrand, rlen = 3000, 80
 
     # ---- TLC: abstract artifacts (rule soundness, fault classes), widened rule, cache machines - side by side
     with ThreadPoolExecutor(max_workers=max(2, min(lib.NCPU // 2, 6))) as ex:
@@ -422,8 +424,7 @@ def run(ctx):
                                    "the listed depth per cache configuration that ends in a validating read, modulo renaming of the "
                                    "two values.  Seeded random cache programs are not exhaustive")
     ctx.assumptions += [
-        "TLC, the CommunityModules Json reader, and the TLA+ transcriptions of MD5 (spec/lib/Md5.tla) and lookup3 (spec/Lookup3.tla), both validated by C09, are trusted",
-        "the regions of the V1 MIME response are taken from the format's documentation (bytes before the last 'Checksum: ' label): SHA-256 is not transcribed, so ProduceOK is not evaluated for that kind",
+        "TLC, the CommunityModules Json reader, and the TLA+ transcriptions of MD5 (spec/lib/Md5.tla) and lookup3 (spec/Lookup3.tla), both validated by C09, and of SHA-256 (in spec/Integrity.tla, compared with four reference digests by hand) are trusted",
         "the driver's rendering of the loaded logical content (Debug text) only distinguishes 'accepted, same' from 'accepted, altered'; no verdict except the guard of F07a depends on it",
         "contents above 160 bytes (the 100 MiB value) are judged by the MD5 the driver computed with the md5 crate",
         "a truncation that removes the check value itself, a fault in the check value, its label or bytes no checksum covers is recorded, not judged (DESIGN.md 5 C07: protected is an under-approximation)",
